@@ -49,7 +49,13 @@ type W struct {
 	Conn rt.Chunking `json:"conn"`
 	// Buf: size of the buffer passed to Read (0 = 64 KiB).
 	Buf int `json:"buf,omitempty"`
+	// Secret: how the client got its mtproxy.Secret: "" = struct literal {Secret: the 16 secret bytes,
+	// CloakHost, Type: TLS}; "parsed" = mtproxy.ParseSecret(0xee || the 16 secret bytes || host), the
+	// form a user configures. The server always keys its digest with the 16 secret bytes.
+	Secret string `json:"secret_form,omitempty"`
 }
+
+const cloakHost = "example.com"
 
 func flipBit(b []byte, n int) []byte {
 	c := append([]byte(nil), b...)
@@ -146,7 +152,15 @@ func eval(w W) kit.Result {
 	}
 
 	client := faketls.VerifNewFakeTLS(kit.NewStream(0xC19), neo.NewTime(fixedNow), conn)
-	err := client.Handshake([4]byte{0xdd, 0xdd, 0xdd, 0xdd}, 2, mtproxy.Secret{Secret: theSecret, CloakHost: "example.com", Type: mtproxy.TLS})
+	sec := mtproxy.Secret{Secret: theSecret, CloakHost: cloakHost, Type: mtproxy.TLS}
+	if w.Secret == "parsed" {
+		raw := append(append([]byte{0xee}, theSecret...), cloakHost...)
+		var perr error
+		if sec, perr = mtproxy.ParseSecret(raw); perr != nil {
+			return kit.Bad("parse-secret", "ParseSecret(ee || secret || %q): %v", cloakHost, perr)
+		}
+	}
+	err := client.Handshake([4]byte{0xdd, 0xdd, 0xdd, 0xdd}, 2, sec)
 	if helloErr != "" {
 		return kit.Bad("client-hello-malformed", "%s", helloErr)
 	}
@@ -156,7 +170,7 @@ func eval(w W) kit.Result {
 	canonical := w.Hello.Variant == "valid" && w.Hello.Extra == 0
 	if err != nil {
 		if canonical {
-			return kit.Bad("valid-hello-rejected", "server hello built per the MTProxy scheme with the right secret and client random was rejected: %v", err)
+			return kit.Bad("valid-hello-rejected"+secretSuffix(w), "server hello built per the MTProxy scheme with the right secret and client random was rejected: %v", err)
 		}
 		return kit.OKo("hello:" + w.Hello.Variant + ":rejected")
 	}
@@ -174,7 +188,7 @@ func eval(w W) kit.Result {
 		okDigest = true
 	}
 	if !okDigest {
-		return kit.Bad("accepted-bad-digest:"+w.Hello.Variant, "handshake succeeded although the server hello (%d bytes consumed) does not carry HMAC-SHA256(secret, client_random || hello) (variant %s n=%d)", consumed, w.Hello.Variant, w.Hello.N)
+		return kit.Bad("accepted-bad-digest:"+w.Hello.Variant+secretSuffix(w), "handshake succeeded although the server hello (%d bytes consumed) does not carry HMAC-SHA256(secret, client_random || hello) (variant %s n=%d)", consumed, w.Hello.Variant, w.Hello.N)
 	}
 	if w.Hello.Variant != "valid" {
 		return kit.Bad("accepted-bad-digest:"+w.Hello.Variant, "harness inconsistency: variant %s produced a valid digest", w.Hello.Variant)
@@ -239,6 +253,13 @@ func eval(w W) kit.Result {
 	return kit.OKo(out)
 }
 
+func secretSuffix(w W) string {
+	if w.Secret != "" {
+		return ":secret-" + w.Secret
+	}
+	return ""
+}
+
 func firstDiff(a, b []byte) int {
 	for i := 0; i < len(a) && i < len(b); i++ {
 		if a[i] != b[i] {
@@ -278,7 +299,8 @@ func main() {
 		c.Rule("every session starts with the real client Handshake against a scripted reference MTProxy server (ServerHello + ChangeCipherSpec + application record, digest = HMAC-SHA256(secret, client_random || answer with zeroed random)). " +
 			"(hello) valid answers with final record of {0,1,32,1024,4096,16384,65535} bytes x {0,1,2,15,16} extra handshake records x chunkings {whole, 1-byte, every single split point; thorough: every pair of split points of the 170-byte answer}; " +
 			"server key = secret with each single bit flipped (128), empty, one byte longer; server-side client random with each single bit flipped (256; quick: every 4th), zeroed, timestamp xor undone; zeroed digest; every single-bit flip of the answer on the wire (quick: every 3rd bit). " +
-			"(writes) write sequences: all singles and pairs over {0,1,2,16383,16384,16385,65534,65535,65536,65537,131071} (thorough: pairs also with 1 MiB and 3 MiB+7; quick: 1 MiB / 3 MiB+7 as singles and in 4 mixed sequences, pairs over {0,1,16384,65535,65536,65537}), triples over {0,1,65535,65536} (quick: {1,65535,65536}), x Read buffer {7, 4096, 65536, 1 MiB} x connection chunking {whole, 1000-byte}; " +
+			"(secret form) valid answers {0,32,65535} x {0,2} extra records x {whole,1-byte}, the 128 (quick 64) single-bit server keys and the 5 wrong-secret/random variants again with the client's mtproxy.Secret obtained from mtproxy.ParseSecret(0xee || 16 secret bytes || host) instead of a struct literal (the server keys its digest with the 16 secret bytes; classes ...:secret-parsed). " +
+			"(writes) write sequences: all singles and pairs over {0,1,2,16383,16384,16385,65534,65535,65536,65537,131071} plus the exact multiples 2x65535, 3x65535 of the record limit (thorough: pairs also with 1 MiB and 3 MiB+7; quick: 1 MiB / 3 MiB+7 as singles and in 4 mixed sequences, pairs over {0,1,16384,65535,65536,65537}), triples over {0,1,65535,65536} (quick: {1,65535,65536}), x Read buffer {7, 4096, 65536, 1 MiB} x connection chunking {whole, 1000-byte}; " +
 			"(server records) sequences <=3 over application records of {0,1,16384,65535} bytes with ChangeCipherSpec records interleaved x buffers x chunkings {whole, 1-byte, 7-byte}. " +
 			"Oracle: handshake success implies the consumed answer carries the right digest, and the canonical right answer is accepted; bytes read by the peer (a second FakeTLS and a reference TLS-record parser) equal the bytes written; every record payload <= 65535. distinct = distinct witnesses.")
 		c.Assume("reference server answer and record parser in lib/reftransport written from the MTProxy FakeTLS scheme / RFC 5246 record layer; clock injected through an in-package accessor (VerifNewFakeTLS); uTLS ClientHello generation is not under test; scripted connection reports EOF separately from data")
@@ -331,13 +353,28 @@ func main() {
 			}
 		}
 
+		// the same handshakes with the secret in the form a user configures it (ParseSecret)
+		for _, app := range []int{0, 32, 65535} {
+			for _, extra := range []int{0, 2} {
+				for _, ch := range []rt.Chunking{rt.Whole(), rt.OneByte()} {
+					add(W{Hello: valid(app, extra), Conn: ch, Server: []int{5}, Secret: "parsed", Writes: []int{1, 65536}})
+				}
+			}
+		}
+		for n := 0; n < 128; n += step(2, 1) {
+			add(W{Hello: Hello{Variant: "secret-bit", N: n, AppLen: 32}, Conn: rt.Whole(), Secret: "parsed"})
+		}
+		for _, v := range []string{"secret-empty", "secret-longer", "random-zero", "random-unxored", "digest-zero"} {
+			add(W{Hello: Hello{Variant: v, AppLen: 32}, Conn: rt.Whole(), Secret: "parsed"})
+		}
+
 		// writes family
 		sizes := []int{0, 1, 2, 16383, 16384, 16385, 65534, 65535, 65536, 65537, 131071}
 		var writeSeqs [][]int
 		for _, n := range sizes {
 			writeSeqs = append(writeSeqs, []int{n})
 		}
-		writeSeqs = append(writeSeqs, []int{1 << 20}, []int{3<<20 + 7}, []int{1, 1 << 20}, []int{65535, 3<<20 + 7, 1}, []int{65536, 1 << 20}, []int{1 << 20, 65535})
+		writeSeqs = append(writeSeqs, []int{2 * 65535}, []int{3 * 65535}, []int{65535, 2 * 65535, 1}, []int{1 << 20}, []int{3<<20 + 7}, []int{1, 1 << 20}, []int{65535, 3<<20 + 7, 1}, []int{65536, 1 << 20}, []int{1 << 20, 65535})
 		if c.Thorough() {
 			for _, s := range seqs(append(append([]int(nil), sizes...), 1<<20, 3<<20+7), 2) {
 				if len(s) == 2 {
